@@ -804,6 +804,21 @@ func (c *Ctx) c12Wiring(b BK) {
 				}
 			case *ast.Ident:
 				got[sel.Sel.Name] = rhs.Name
+			case *ast.FuncLit:
+				// a literal that forwards to the backend's method (e.g. to pass it something more)
+				ast.Inspect(rhs.Body, func(y ast.Node) bool {
+					if call, ok := y.(*ast.CallExpr); ok {
+						if ms, ok := ast.Unparen(call.Fun).(*ast.SelectorExpr); ok {
+							if s := c.Pkg.TypesInfo.Selections[ms]; s != nil && s.Kind() == types.MethodVal && (namedTypeName(s.Recv()) == b.Name || namedTypeName(s.Recv()) == b.Wrapper) {
+								if mf, ok := s.Obj().(*types.Func); ok {
+									full := pw.FuncName(mf)
+									got[sel.Sel.Name] = full[strings.LastIndex(full, ".")+1:]
+								}
+							}
+						}
+					}
+					return true
+				})
 			}
 			return true
 		})
@@ -821,7 +836,7 @@ func (c *Ctx) c12Wiring(b BK) {
 				}
 				set := map[string]bool{}
 				for _, se := range sp.Events {
-					if se.Kind == pw.EvFieldWrite && se.Field != nil && se.Value != nil && se.Value.Kind == pw.KFuncRef {
+					if se.Kind == pw.EvFieldWrite && se.Field != nil && se.Value != nil && (se.Value.Kind == pw.KFuncRef || se.Value.Kind == pw.KClosure) {
 						set[fname(se.Field)] = true
 					}
 				}
